@@ -95,6 +95,9 @@ def R2_grid(ctx):
     tm = Terms(b)
     ld = [c for c in b.calls() if c.callee == P + "prediction_model_ops::load_prediction_model"]
     pc = [c for c in b.calls() if c.callee == P + "prediction_model_record::PredictionModelRecord::predict"]
+    if len(ld) == 1 and not pc and not b.natural_loops():
+        _grid_map_form(ctx, b, tm, ld[0])
+        return
     if not ctx.check(len(ld) == 1 and len(pc) == 1, "anchors", "expected one load_prediction_model and one predict call (found %d/%d)" % (len(ld), len(pc)), b.where()):
         return
     NONE = ("agg", "std::option::Option", "None", ())
@@ -205,6 +208,91 @@ def R2_grid(ctx):
     ctx.check(oka, "record:no-adjustment=1.0", "a record loaded without adjustment does not use the neutral factor 1.0 / stores another cache", lb.where(), detail="unwrap_or(1.0)")
 
 
+def _grid_map_form(ctx, b, tm, ld):
+    """the same grid written with adaptors: speed_axis.iter().map(|s| grade_axis.iter().map(|g| predict(..)).collect()).collect()"""
+    F = ctx.F
+    U_ = lambda t: rewrite(nosite(deep_strip(t)), lambda x: unmut(x) if x[0] == "mut" else None)
+    NONE = ("agg", "std::option::Option", "None", ())
+    la = tuple(U_(tm.operand(x, ld.bb)) for x in ld.args)
+    ctx.check(la == (("arg", 3), ("arg", 1), ("arg", 2), ("arg", 4), ("arg", 7), ("arg", 10), NONE, NONE, NONE), "underlying-model:same-units-no-cache-no-adjustment", "the underlying model is not loaded with (name, path, type, speed_unit, grade_unit, energy_rate_unit, None, None, None)", ld.where(), detail="units = (arg4, arg7, arg10); ideal/adjustment/cache = None")
+    ctx.check(try_propagation(b, ld, tm)["kind"] == "propagated", "underlying-model:error", "Err of load_prediction_model is not propagated", ld.where())
+    model = U_(tm.call_term(ld.term, ld.bb))
+    axes = {}
+    for c in b.calls():
+        if c.callee == I + "utils::linspace":
+            a = tuple(U_(tm.operand(x, c.bb)) for x in c.args)
+            if a == (_f64(("field", ("arg", 5), "0"), "speed::Speed"), _f64(("field", ("arg", 5), "1"), "speed::Speed"), ("arg", 6)):
+                axes["speed"] = U_(tm.call_term(c.term, c.bb))
+            if a == (_f64(("field", ("arg", 8), "0"), "grade::Grade"), _f64(("field", ("arg", 8), "1"), "grade::Grade"), ("arg", 9)):
+                axes["grade"] = U_(tm.call_term(c.term, c.bb))
+    if not ctx.check(set(axes) == {"speed", "grade"}, "axes:linspace(bounds, bins)", "the axes are not linspace(lower, upper, bins) of the speed and grade bounds (found %s)" % sorted(axes), b.where(), detail="linspace(bounds.0, bounds.1, bins)"):
+        return
+    # outer closure: map over the speed axis; inner closure: map over the grade axis, created inside the outer one
+    builds = elementwise_builds(b)
+    outer = [x for x in builds if x["form"] == "map" and contains(x["src"], lambda q: q == axes["speed"])]
+    if not ctx.check(len(outer) == 1, "loops:speed-outer/grade-inner", "no element-wise build over the speed axis found in `new`", b.where(), detail="rows = speed"):
+        return
+    outer = outer[0]
+    trunc = r"Iterator>?::(take|skip|filter|step_by|rev|chain|zip)$"
+    ocl = [x for x in subterms(outer["chain"]) if x[0] == "closure"]
+    ocb = F.need(ocl[0][1])
+    ocaps = ocl[0][2]
+    ib_ = [x for x in elementwise_builds(ocb) if x["form"] == "map"]
+    sub_o = lambda t: rewrite(t, lambda y: U_(ocaps[int(y[2])]) if y[0] == "field" and y[1] == ("arg", 1) and str(y[2]).isdigit() and int(y[2]) < len(ocaps) else None)
+    inner = [x for x in ib_ if contains(sub_o(x["src"]), lambda q: q == axes["grade"])]
+    oknest = len(inner) == 1 and not [y for y in calls_in(outer["chain"]) if re.search(trunc, y[1])] and (len(inner) == 1 and not [y for y in calls_in(inner[0]["chain"]) if re.search(trunc, y[1])])
+    ctx.check(oknest, "loops:speed-outer/grade-inner", "the speed axis is not mapped by the outer closure and the grade axis by a closure nested in it", b.where(), detail="rows = speed, columns = grade")
+    if not oknest:
+        return
+    inner = inner[0]
+    # the row built by the outer closure is the inner collection
+    it_ = U_(Terms(ocb).call_term(inner["site"].term, inner["site"].bb))
+    ctx.check(outer["values"] == (rewrite(it_, lambda y: ("elem",) if y == ("arg", 2) else None),) or contains(outer["values"][0], lambda q: q[0] == "call" and "collect" in q[1]), "cells:one-push-per-(s,g)", "a row of the matrix is not the collected inner map over the grade axis", ocb.where(), detail="row = grade_axis.iter().map(cell).collect()")
+    icl = [x for x in subterms(inner["chain"]) if x[0] == "closure"][0]
+    icb = F.need(icl[1])
+    icaps = icl[2]
+    itm_ = Terms(icb)
+    pcs = [c for c in icb.calls() if c.callee == P + "prediction_model_record::PredictionModelRecord::predict"]
+    if not ctx.check(len(pcs) == 1, "anchors", "expected one predict call in the cell closure", icb.where()):
+        return
+    p_ = pcs[0]
+
+    def up(t):
+        """a term of the inner closure expressed over `new`'s terms; the two elements become ('s',) and ('g',)"""
+        t = rewrite(U_(t), lambda y: ("g",) if y == ("arg", 2) else (U_(icaps[int(y[2])]) if y[0] == "field" and y[1] == ("arg", 1) and str(y[2]).isdigit() and int(y[2]) < len(icaps) else None))
+        t = rewrite(t, lambda y: ("s",) if y == ("arg", 2) else (U_(ocaps[int(y[2])]) if y[0] == "field" and y[1] == ("arg", 1) and str(y[2]).isdigit() and int(y[2]) < len(ocaps) else None))
+        return t
+
+    pa = [up(itm_.operand(x, p_.bb)) for x in p_.args]
+    ctx.check(pa[0] == model, "cell:receiver", "the grid is not filled from the loaded underlying model", p_.where())
+    want_s = ("tuple", (("call", "routee_compass_core::model::unit::speed::Speed::new", (("s",),)), ("arg", 4)))
+    want_g = ("tuple", (("call", "routee_compass_core::model::unit::grade::Grade::new", (("g",),)), ("arg", 7)))
+    ctx.check(pa[1] == want_s, "cell:speed=(Speed(axis element), speed_unit)", "the speed argument is %s" % short(pa[1])[:200], p_.where(), detail="(Speed::new(s), arg4)")
+    ctx.check(pa[2] == want_g, "cell:grade=(Grade(axis element), grade_unit)", "the grade argument is %s" % short(pa[2])[:200], p_.where(), detail="(Grade::new(g), arg7)")
+    want_d = ("tuple", (("call", "routee_compass_core::model::unit::distance::Distance::new", (("const", "f64", "1.0"),)), ("call", "routee_compass_core::model::unit::energy_rate_unit::EnergyRateUnit::associated_distance_unit", (("arg", 10),))))
+    ctx.check(pa[3] == want_d, "cell:unit-distance-in-rate-distance-unit", "the distance is not (Distance(1.0), energy_rate_unit.associated_distance_unit()): %s" % short(pa[3])[:200], p_.where(), detail="(1.0, rate_unit.associated_distance_unit())")
+    ctx.check(try_propagation(icb, p_, itm_)["kind"] == "propagated", "cell:error", "Err of the underlying prediction is not propagated", p_.where())
+    cellv = rewrite(inner["values"][0], lambda y: ("g",) if y == ("elem",) else None)
+    cellv = rewrite(cellv, lambda y: ("s",) if y == ("arg", 2) else (U_(ocaps[int(y[2])]) if y[0] == "field" and y[1] == ("arg", 1) and str(y[2]).isdigit() and int(y[2]) < len(ocaps) else None))
+    want_c = ("call", "<routee_compass_core::model::unit::energy::Energy as routee_compass_core::model::unit::as_f64::AsF64>::as_f64", (("field", ("call", p_.callee, tuple(pa)), "0"),))
+    ctx.check(nosite(cellv) == want_c, "cells:value=energy.as_f64()", "a cell is not predict(..).0.as_f64(): %s" % short(cellv)[:160], icb.where(), detail="energy.as_f64()")
+    i2 = [c for c in b.calls() if c.callee == I + "interp::Interp2D::new"]
+    oki = len(i2) == 1
+    if oki:
+        ia = [U_(tm.operand(x, i2[0].bb)) for x in i2[0].args]
+        oki = ia[0] == axes["speed"] and ia[1] == axes["grade"] and ia[2] == U_(tm.call_term(outer["site"].term, outer["site"].bb))
+    ctx.check(oki, "interp2d:(speed axis, grade axis, values)", "Interp2D::new does not receive (speed axis, grade axis, the collected matrix)", b.where(), detail="Interp2D::new(speed_values, grade_values, values)")
+    if oki:
+        ctx.check(error_flow(F, b, i2[0], tm)["ok"], "interp2d:error", "Err of Interp2D::new is not propagated", i2[0].where())
+        ctx.check(try_propagation(b, outer["site"], tm)["kind"] == "propagated" or error_flow(F, b, outer["site"], tm).get("ok"), "cells:error-propagated", "an Err while filling the grid is not propagated", outer["site"].where())
+    oks = [r.ret for r in table_ok_rows(b)]
+    okst = bool(oks)
+    for o in oks:
+        s_ = strip_maps(agg_payload(o))
+        okst = okst and s_[0] == "agg" and s_[1] == M and dict(s_[3]).get("speed_unit") == ("arg", 4) and dict(s_[3]).get("grade_unit") == ("arg", 7) and dict(s_[3]).get("energy_rate_unit") == ("arg", 10)
+    ctx.check(okst, "stored-units", "the model does not store the units the grid was built in", b.where(), detail="units = (arg4, arg7, arg10)")
+
+
 def table_ok_rows(b):
     return [r for r in table(b, max_paths=200000) if r.end == "return" and result_variant(r.ret) == "Ok"]
 
@@ -287,6 +375,9 @@ def R3_weights(ctx):
         for a in range(n):
             symbols[("call", VIDX, (("field", ("arg", 1), AXES[a]), L[a]))] = "g%sl" % AXES[a]
             symbols[("call", VIDX, (("field", ("arg", 1), AXES[a]), Uu[a]))] = "g%su" % AXES[a]
+            # the same reads through a slice (e.g. inside a helper taking `&[f64]`)
+            symbols[("index", ("field", ("arg", 1), AXES[a]), L[a])] = "g%sl" % AXES[a]
+            symbols[("index", ("field", ("arg", 1), AXES[a]), Uu[a])] = "g%su" % AXES[a]
             symbols[point(a)] = "p" + AXES[a]
         for corner in range(2 ** n):
             bits = [(corner >> a) & 1 for a in range(n)]
@@ -706,4 +797,27 @@ def R6_units(ctx):
     common.unit_rule(ctx, "C14.R6", "unit typestate in the interpolation / smartcore / record predict functions: inputs are converted from the caller's unit into the model's stored unit and the energy is created from (rate, rate unit, distance, distance unit)", sel, floor=4)
 
 
-RULES = [R1_clamp, R2_grid, R2b_linspace, R3_weights, R3b_nd, R4_rejection, R5_index_search, R6_units]
+def R7_configured_grid(ctx):
+    """C14.R7 the configured grid reaches the constructor role by role"""
+    F = ctx.F
+    ctx.rule("C14.R7", "load_prediction_model builds the interpolated model from the configured ModelType::Interpolate field by field: new(path, underlying_model_type, name, speed_unit, (speed_lower_bound, speed_upper_bound), speed_bins, grade_unit, (grade_lower_bound, grade_upper_bound), grade_bins, energy_rate_unit) — parameter positions as fixed by C14.R2", floor=10)
+    b = F.need(P + "prediction_model_ops::load_prediction_model")
+    tm = Terms(b)
+    U_ = lambda t: rewrite(nosite(deep_strip(t)), lambda x: unmut(x) if x[0] == "mut" else None)
+    cs = [c for c in b.calls_deep() if c.callee == M + "::new"]
+    if not ctx.check(len(cs) == 1, "anchors", "expected one InterpolationSpeedGradeModel::new call in load_prediction_model (found %d)" % len(cs), b.where()):
+        return
+    c = cs[0]
+    got = [U_(tm.operand(a, c.bb)) for a in c.args]
+    # the variant payload may be read from the by-value argument or from a copy of it
+    cfg = lambda name: lambda t: t[0] == "field" and t[2] == name and t[1][0] == "variant" and t[1][2] == "Interpolate" and t[1][1] == ("arg", 3)
+    pair = lambda lo, hi: lambda t: t[0] == "tuple" and len(t[1]) == 2 and cfg(lo)(t[1][0]) and cfg(hi)(t[1][1])
+    isarg = lambda i: lambda t: t == ("arg", i)
+    want = [("path", isarg(2)), ("underlying_model_type", cfg("underlying_model_type")), ("name", isarg(1)), ("speed_unit", isarg(4)), ("speed bounds", pair("speed_lower_bound", "speed_upper_bound")), ("speed_bins", cfg("speed_bins")), ("grade_unit", isarg(5)), ("grade bounds", pair("grade_lower_bound", "grade_upper_bound")), ("grade_bins", cfg("grade_bins")), ("energy_rate_unit", isarg(6))]
+    if not ctx.check(len(got) == len(want), "arity", "InterpolationSpeedGradeModel::new takes %d arguments, expected %d" % (len(got), len(want)), c.where()):
+        return
+    for (role, pred), t in zip(want, got):
+        ctx.check(pred(t), "new-argument:%s" % role, "the %s passed to InterpolationSpeedGradeModel::new is %s" % (role, short(t)[:160]), c.where(), detail=role)
+
+
+RULES = [R1_clamp, R2_grid, R2b_linspace, R3_weights, R3b_nd, R4_rejection, R5_index_search, R6_units, R7_configured_grid]
